@@ -5,6 +5,7 @@ package dastard
 // the outcome does not depend on timing.  Nothing is judged here; AbacoTrace.tla judges the trace.
 
 import (
+	"runtime"
 	"fmt"
 	"math/rand"
 	"os"
@@ -366,10 +367,19 @@ func abRandom(rng *rand.Rand) abScen {
 		sc.Frame0 = int64(rng.Intn(1 << 30))
 	}
 	fpp := 1 + rng.Intn(3)
+	wide := rng.Intn(6) == 0
+	if wide {
+		sc.Rescale = true
+	}
 	first := rng.Intn(3)
 	maxsn := 6 + rng.Intn(14)
 	for gi := 0; gi < ng; gi++ {
 		g := abGroup{First: first, Nch: 1 + rng.Intn(2), Fpp: fpp, Bits: 16, Off: uint32(rng.Intn(3) * 1000 * (gi + 1))}
+		if wide && gi == 0 {
+			// a group with more channels than the machine has processors, and not a multiple of their number: whatever
+			// fan-out the demultiplexer uses per channel must reach every channel (rescaling makes an untouched one visible)
+			g.Nch = runtime.GOMAXPROCS(0) + 1 + rng.Intn(7)
+		}
 		if rng.Intn(3) == 0 {
 			g.Bits = 32
 		}
